@@ -667,6 +667,8 @@ Definition judge (c : case) : N :=
   | CPipe ds oa ob =>
       let agree :=
         forallb addr_agrees ds &&
+        (* Address.Normalize: site hosts reach the (case-sensitive) classifiers lower-cased *)
+        forallb (fun d => beq (to_lower (da_host d)) (da_host d)) ds &&
         match init_sites ds with
         | None => false
         | Some init =>
